@@ -221,12 +221,14 @@ def impexp_jobs(tier):
     for w in (WIDTHS if tier == "thorough" else (8, 32)):
         base, t, sz = cfg(w, 1), tag(w, 1), w // 8
         full = (tier == "thorough")
-        def X(op, ac, dg, bs, fl, desc, kf=None):
+        def X(op, ac, dg, bs, fl, desc, kf=None, retnull=False):
             d = dict(base, AC=ac, DG=dg, BS=bs, FLAGS=fl)
             d[op] = None
+            if retnull:
+                d["RETNULL"] = None
             if kf:
                 d.update(KF[kf])
-            return J("io-%s-%s-c%dd%d-b%d-f%d" % (op[2:].lower().replace("_", ""), t, ac, dg, bs, fl), "impexp.c", d, max(bs, ac * sz, 4) + 3,
+            return J("io-%s-%s-c%dd%d-b%d-f%d%s" % (op[2:].lower().replace("_", ""), t, ac, dg, bs, fl, "-rn" if retnull else ""), "impexp.c", d, max(bs, ac * sz, 4) + 3,
                      "digit width %d, capacity %d digits, %d significant digits, buffer %d bytes, flags %d; all digits, stale digits and bytes"
                      % (w, ac, dg, bs, fl), desc, unwindset=memset_uw(w, max(bs, 32)))
         acs = [a for a in (1, 2) if (a + 1) * w <= 128]
@@ -258,6 +260,9 @@ def impexp_jobs(tier):
                         if KF["export_le_bin"] and 0 < bs < need:
                             continue    # whole shape excluded by the known finding
                         out.append(X("X_EXP_LE_BIN", ac, dg, bs, fl, "bn_export_le_bin: bytes denote the value, size reported; EOVERFLOW iff it does not fit; EINVAL empty buffer", kf="export_le_bin"))
+                        if fl == 0 and bs > 0:   # NULL size out-parameter, as the ecdsa_*_le callers pass it (seeded change C09-export-le-null-ret was missed without it)
+                            out.append(X("X_EXP_LE_BIN", ac, dg, bs, fl, "bn_export_le_bin with NULL size pointer: same, fixed size", kf="export_le_bin", retnull=True))
+                            out.append(X("X_EXP_BE_BIN", ac, dg, bs, fl, "bn_export_be_bin with NULL size pointer: same, fixed size", retnull=True))
                 hs = sorted(set(s for s in (list(range(0, 2 * need + 4)) if full else [1, 2, 3, 2 * need - 1, 2 * need, 2 * need + 1, 2 * need + 2]) if s >= 0))
                 if not full and w >= 32:
                     hs = [h for h in hs if h in (1, 2, 2 * need - 1, 2 * need, 2 * need + 1)]
